@@ -173,12 +173,14 @@ def units(tier):
     sp = copt.trad_space(tier)
     # (b): deviation-bounded subset in quick (every 2nd state), all in thorough
     idx = list(range(len(sp)))
+    hom = [i for i in idx if "homonym" in sp[i].feats]  # never sub-sampled away
     if tier == "quick":
-        idx = idx[::2]
+        idx = sorted(set(idx[::2]) | set(hom))
     us += [("MSG", tier, idx[i:i + BATCH]) for i in range(0, len(idx), BATCH)]
     ou = copt.units(PID, tier)
     if tier == "quick":
-        ou = ou[::2]  # C04 runs the same executables on every batch; C06 quick takes every second one
+        # C04 runs the same executables on every batch; C06 quick takes every second one (and every batch holding a homonym case)
+        ou = [u for k, u in enumerate(ou) if k % 2 == 0 or set(u[2]) & set(hom)]
     us += [("OPT", u) for u in ou]
     return us
 
@@ -197,7 +199,7 @@ def main(pid, tier):
              "opt-both-DBP_BIG_ENDIAN vs opt-little/std/reference with exhaustive byte sweeps; (d) 2^5 indicator combinations x predefinition for "
              "the runtime and for generated -O code; non-trivial = value/input has a bit set",
         exhaustive=True,
-        bound="(a) complete; (b) %s traditional states; (c) traditional subset of SING(%s) u COMB(2) u TREE (quick: every second batch); (d) complete" % (
+        bound="(a) complete; (b) %s traditional states; (c) traditional subset of SING(%s) u COMB(2) u TREE u HOMONYMS (quick: every second batch); (d) complete" % (
             "every second" if tier == "quick" else "all", tier),
         excluded="whole extensible messages are not run under emulation (the two native uint16 'ahead' accesses, DESIGN F6); their prefix path is the 16-bit instance of (a)",
     )
